@@ -84,7 +84,7 @@ pub fn is_harness_location(loc: &str) -> bool {
 /// Stable, line-free form of a panic location for signatures.
 pub fn panic_site(loc: &str) -> String {
     let file = loc.rsplit_once(':').map(|x| x.0).unwrap_or(loc);
-    if let Some(i) = file.find("/src/") {
+    if let Some(i) = file.rfind("/src/") {
         // crate-relative path, prefixed by the crate directory name
         let head = &file[..i];
         let krate = head.rsplit('/').next().unwrap_or("");
@@ -167,9 +167,16 @@ fn cmd_run(args: &[String]) -> i32 {
                         if i >= cases.len() {
                             break;
                         }
-                        *current[t].lock().unwrap() = Some((Instant::now(), i));
+                        let c0 = Instant::now();
+                        *current[t].lock().unwrap() = Some((c0, i));
                         run_case_guarded(prop.as_ref(), &cases[i], &mut ctx);
                         *current[t].lock().unwrap() = None;
+                        let ms = c0.elapsed().as_millis() as u64;
+                        ctx.max("slowest_case_ms", ms);
+                        if ms > 2000 {
+                            let d = cases[i].to_string();
+                            ctx.sample("slow_case", || json!({"ms": ms, "case": d.chars().take(200).collect::<String>()}));
+                        }
                     }
                     ctx
                 })
